@@ -18,7 +18,13 @@
 // ("held by every caller"), and every call site with the locks held there, so
 // that the propagation is re-checked by Coq rather than trusted.
 //
-// What this tool does NOT see (trusted / out of scope, see notes/C17.md):
+// Tracked besides the runners: the configuration values httpserver.Config, httpserver.Route and
+// composite.Config (policy: written only in constructors/options).
+//
+// What this tool does NOT see (trusted / out of scope, see notes/C17.md): local variables captured by
+// goroutine closures, package-level variables, fields of structs that are not in trackedStructs
+// (httpserver.RequestProcessor, middleware state, ...), a reference read under a lock and
+// dereferenced after the unlock,
 // aliasing of a field's address, reflection, unsafe, accesses performed by
 // dependencies through pointers handed to them, calls through function values.
 // A `go func(){...}` body, a `wg.Go(func(){...})` body and any function literal
@@ -61,6 +67,9 @@ var trackedStructs = map[string]bool{
 	"httpcluster.Runner":      true,
 	"httpcluster.entries":     true,
 	"httpcluster.serverEntry": true,
+	"httpserver.Config":       true,
+	"httpserver.Route":        true,
+	"composite.Config":        true,
 }
 
 type listPkg struct {
@@ -310,6 +319,11 @@ func (s *state) add(h heldLock) {
 }
 
 // release removes the most recent holding of (obj,name); mode is not checked.
+// When nothing matches (an Unlock of a lock this function context did not take, e.g. a helper releasing
+// a lock on behalf of its caller) the state is left as it is: the Unlock site itself has already been
+// recorded with a lexical lock set that LACKS the lock, and coq/model/Race.v `unlock_failures` rejects
+// every table containing such a site - the callers' later sites would otherwise be recorded as still
+// under the lock (audit M11).
 func (s *state) release(obj types.Object, name string) {
 	for i := len(s.held) - 1; i >= 0; i-- {
 		if s.held[i].obj == obj && s.held[i].name == name && !s.held[i].deferred {
